@@ -28,6 +28,7 @@ type Prog struct {
 	PkgBy   map[string]*packages.Package
 	SSA     *ssa.Program
 	Funcs   []*ssa.Function // every function of the module (methods, closures), sorted by name
+	Inits   []*ssa.Function // synthetic package initialisers of the module packages
 	byName  map[string]*ssa.Function
 	CG      *callgraph.Graph
 	astDecl map[*ssa.Function]*ast.FuncDecl
@@ -96,15 +97,19 @@ func loadProg(repo string) *Prog {
 		if pkg == nil || !strings.HasPrefix(pkg.Path(), modPath) {
 			continue
 		}
-		if fn.Synthetic != "" && fn.Syntax() == nil {
+		if len(fn.Blocks) == 0 {
 			continue
 		}
-		if len(fn.Blocks) == 0 {
+		if fn.Synthetic != "" && fn.Syntax() == nil {
+			if fn.Name() == "init" && fn.Synthetic == "package initializer" {
+				p.Inits = append(p.Inits, fn)
+			}
 			continue
 		}
 		p.Funcs = append(p.Funcs, fn)
 	}
 	sort.Slice(p.Funcs, func(i, j int) bool { return p.Funcs[i].String() < p.Funcs[j].String() })
+	sort.Slice(p.Inits, func(i, j int) bool { return p.Inits[i].String() < p.Inits[j].String() })
 	for _, fn := range p.Funcs {
 		p.byName[shortName(fn)] = fn
 		if d, ok := fn.Syntax().(*ast.FuncDecl); ok {
@@ -242,6 +247,11 @@ func (p *Prog) Callers(fn *ssa.Function) []ssa.CallInstruction {
 	}
 	sort.Slice(out, func(i, j int) bool { return out[i].Pos() < out[j].Pos() })
 	return out
+}
+
+// FuncsAndInits is every source function plus the package initialisers.
+func (p *Prog) FuncsAndInits() []*ssa.Function {
+	return append(append([]*ssa.Function(nil), p.Funcs...), p.Inits...)
 }
 
 func sortedFuncs(m map[*ssa.Function]bool) []*ssa.Function {
